@@ -134,8 +134,8 @@ static int disasm_alu(
             snprintf(instruction, length, "%s [0x%04x], %s, %s",
               table_unsp[n].instr,
               memory->read16(address + 2),
-              regs[operand_a],
-              regs[operand_b]);
+              regs[operand_b],
+              regs[operand_a]);
           }
             else
           {
